@@ -348,7 +348,7 @@ def main(chk, replay: dict | None = None) -> int:
     if chk.model_ok:
         codes = chk.coq_eval("From PG Require Import Lib.Strs Model.Registry Corr.C11.",
                              "(layout * list gen_call) * list obs1", [c_case(c) for c in cases], "run", shard=80)
-    chk.decide(cases, codes, {2: "F11b"},
+    chk.decide(cases, codes, {},
                "Corr.C11.run: trace(model) = registry file, alias classes, per-client core imports and call outcome "
                "observed on disk after every generate call")
     return chk.finish(TRUSTED,
